@@ -44,7 +44,9 @@ MANIFEST = {
 RULE = ("seeded random tags over TDRC/TDOR/TDRL (every precision, several values, zero fields, garbage), TYER/TDAT/TIME/TORY (valid, garbage, several values), TIPL/TMCL/IPLS, "
         "multi-valued TIT2/TPE1/TALB/TCON/TXXX/COMM and multi-valued numeric text frames (TRCK/TPOS/TBPM/TLEN/TDLY/TCMP/TYER/TORY, MVIN/GRP1) in the four encodings incl. astral characters, APIC with v2.2 mime, CHAP/CTOC with nested sub-frames, frames existing in "
         "one version only, conflicting old+new frames; x update_to_v23 / update_to_v24 / separators '/', ';', None, ' / ' / ID3v1 option 0,1,2 / existing file content; hand-built "
-        "v2.2 and v2.3 tags and the sample files; histories on one in-memory object per generated tag (convert + save twice + save over the own output + convert again, "
+        "v2.2 / v2.3 / v2.4 tags (recording date at every precision or absent, original year, people lists, picture) alone and followed by an ID3v1 block (year equal to / different "
+        "from / absent, other fields filled or blank), loaded with v2_version=target and load_v1=False, with every default (+ update_to_v23 for a v2.3 target) and with "
+        "v2_version=target, saved as v2.4 and as v2.3 (the v2 tag has precedence over ID3v1 for every field it carries), and the sample files; histories on one in-memory object per generated tag (convert + save twice + save over the own output + convert again, "
         "copy/convert/save/restore twice then v2.4, EasyID3 v2.3 twice then v2.4 with musician credits added through the EasyID3 keys, v2.3 form -> update_to_v24 saved twice, "
         "held frame objects compared before/after both conversions on arbitrary tags). non-trivial = the conversion changed, created or removed at least one frame, or a save was decoded; distinct by (operation, tag description)")
 
